@@ -445,6 +445,52 @@ func (e *Exec) genOp(rng *lib.Rand, v int, kind string, bad bool) (Op, bool) {
 		}
 		live = sortedU64(live)
 		op := Op{K: "write", V: v, B0: b0, NB: nb}
+		if len(live) > 0 && rng.Chance(0.4) {
+			// wipe one supervoxel out of one block (its count there drops to zero), by background or
+			// by another label
+			sv := live[rng.Intn(len(live))]
+			vol := e.curSV(v)
+			n := g.N()
+			mn, mx := [3]int{1 << 30, 1 << 30, 1 << 30}, [3]int{-1, -1, -1}
+			first := true
+			var blk [3]int
+			for z := 0; z < n[2]; z++ {
+				for y := 0; y < n[1]; y++ {
+					for x := 0; x < n[0]; x++ {
+						if vol[g.Idx(x, y, z)] != sv {
+							continue
+						}
+						if first {
+							blk, first = g.BlockOf(x, y, z), false
+						}
+						if g.BlockOf(x, y, z) != blk {
+							continue
+						}
+						p := [3]int{x, y, z}
+						for a := 0; a < 3; a++ {
+							if p[a] < mn[a] {
+								mn[a] = p[a]
+							}
+							if p[a] > mx[a] {
+								mx[a] = p[a]
+							}
+						}
+					}
+				}
+			}
+			if !first {
+				var l uint64
+				if rng.Bool() && len(live) > 1 {
+					l = live[rng.Intn(len(live))]
+					if l == sv {
+						l = 0
+					}
+				}
+				op.B0, op.NB = blk, [3]int{1, 1, 1}
+				op.Boxes = []Box{{mn, [3]int{mx[0] - mn[0] + 1, mx[1] - mn[1] + 1, mx[2] - mn[2] + 1}, l}}
+				return op, true
+			}
+		}
 		for i, k := 0, 1+rng.Intn(3); i < k; i++ {
 			var p, d [3]int
 			for a := 0; a < 3; a++ {
